@@ -13,7 +13,9 @@ executes is that function instantiated with Mathlib's field structure on `Rat`.
 
 Transcription notes (code as it is in average_beads.py):
 * a dict is an association list in insertion order; `.get(k, d)` = first match or `d`;
-* a constituent counts as positioned iff `subnode.get('position') is not None`;
+* a constituent counts as positioned iff `subnode.get('position') is not None`
+  (an array of NaN counts as a position for the code; the harness sends such an atom as
+  unpositioned, which is vermouth's own `selector_has_position` reading: finding F-C09-1);
 * weight of a constituent = `mapping_weights.get(key, 1) * subnode.get(weight, 1)`,
   the table is looked up by the *node key* of the constituent; a missing
   `mapping_weights` attribute is the empty table; `weight=None` gives factor 1;
